@@ -17,7 +17,8 @@ import (
 	"testing/synctest"
 	"time"
 
-	"golang.org/x/crypto/openpgp" //nolint
+	"golang.org/x/crypto/openpgp"           //nolint
+	"golang.org/x/crypto/openpgp/clearsign" //nolint
 
 	"helm.sh/helm/v4/pkg/chart/v2/loader"
 	"helm.sh/helm/v4/pkg/downloader"
@@ -36,6 +37,7 @@ type C17Spec struct {
 	Strategy   string `json:"strategy,omitempty"`   // always | ifpossible
 	SignerWho  string `json:"signerWho,omitempty"`  // signer | other: who actually signed
 	SecondSign bool   `json:"secondSign,omitempty"` // prov signed by the other key although the keyring trusts only signer
+	ReadError  bool   `json:"readError,omitempty"`  // after an accepted download the archive is verified again while reading it fails with an I/O error
 	Rekey      string `json:"rekey,omitempty"`      // the keyring FILE is rewritten with this content after the first download; the chart is then downloaded again
 }
 
@@ -279,6 +281,29 @@ func ExecuteC17(t *testing.T, plan *Plan) *RunResult {
 		}
 		res.Probes["ifpossible"]++
 	}
+	if c.ReadError && opErr == nil && panicked == "" && destfile != "" {
+		// a disk that returns an I/O error while the archive is hashed: the bytes cannot be vouched for
+		res.Checks++
+		os.Remove(destfile)
+		if err := os.Symlink("/proc/self/mem", destfile); err == nil {
+			var verr error
+			vpan := ""
+			func() {
+				defer func() {
+					if r := recover(); r != nil {
+						vpan = fmt.Sprint(r)
+					}
+				}()
+				_, verr = downloader.VerifyChart(destfile, keyring)
+			}()
+			res.FaultsFired["disk-read-error"]++
+			if vpan != "" {
+				violate("no-panic", cause+",read-error", "verification panicked: "+trunc(vpan, 300))
+			} else if verr == nil {
+				violate("accept-only-untampered", cause+",read-error", "verification succeeded although reading the archive failed with an I/O error (its bytes were never compared with the signed digest)")
+			}
+		}
+	}
 	if secondRan {
 		res.Checks += 2
 		res.Probes["keyring-rewritten"]++
@@ -341,6 +366,8 @@ func genC17(seed, index uint64, tier string) *Plan {
 	}
 	if g.Chance(0.25) {
 		c.Rekey = g.Pick("signer", "other", "empty", "signer+other")
+	} else if g.Chance(0.15) {
+		c.ReadError = true
 	}
 	p.Net = &NetSpec{Path: "c17", C17: c}
 	p.Variant = "c17"
@@ -370,6 +397,9 @@ func ExecuteC20b(t *testing.T, plan *Plan) *RunResult {
 	}
 	defer os.RemoveAll(dir)
 	archive, prov := signedChart("mychart0", "signer")
+	if spec.Resign != nil {
+		prov = resignDamaged(prov, *spec.Resign)
+	}
 	keyring := filepath.Join(dir, "pubring.gpg")
 	writeKeyring(keyring, "signer")
 	panicked, what := "", ""
@@ -441,6 +471,10 @@ func ExecuteC20b(t *testing.T, plan *Plan) *RunResult {
 		simElapsed = time.Since(start)
 	})
 	cause := "intact"
+	if spec.Resign != nil {
+		cause = "prov:signed-after-" + spec.Resign.Kind
+		res.FaultsFired["publisher-disk-"+spec.Resign.Kind]++
+	}
 	if spec.Transit != nil {
 		cause = spec.Target + ":" + spec.Transit.Corrupt
 		if spec.Transit.StallS > 0 {
@@ -455,7 +489,7 @@ func ExecuteC20b(t *testing.T, plan *Plan) *RunResult {
 	if simElapsed > 10*time.Minute {
 		res.Violations = append(res.Violations, Violation{"C20", "no-hang", what, cause, fmt.Sprintf("%s took %v of simulated time", what, simElapsed), 0})
 	}
-	if spec.Transit == nil && opErr != nil {
+	if spec.Transit == nil && spec.Resign == nil && opErr != nil {
 		res.Violations = append(res.Violations, Violation{"C20", "intact-input-accepted", what, cause, fmt.Sprintf("undamaged download failed in %s: %v", what, opErr), 0})
 	}
 	if opErr != nil {
@@ -472,9 +506,37 @@ func ExecuteC20b(t *testing.T, plan *Plan) *RunResult {
 	return res
 }
 
+// resignDamaged applies a disk fault to the signed text of a provenance file and signs the result with the trusted key:
+// what a publisher whose copy was damaged before signing would upload. The signature is valid, the content is not.
+func resignDamaged(prov []byte, f DiskFault) []byte {
+	block, _ := clearsign.Decode(prov)
+	if block == nil {
+		return prov
+	}
+	body, ok := applyDiskFault(block.Plaintext, nil, f)
+	if !ok {
+		return prov
+	}
+	var out bytes.Buffer
+	w, err := clearsign.Encode(&out, testKeys().signer.PrivateKey, nil)
+	if err != nil {
+		panic(err)
+	}
+	w.Write(body)
+	w.Close()
+	return out.Bytes()
+}
+
 func genC20b(g *Gen, seed, index uint64) *Plan {
 	p := &Plan{Check: "C20", Seed: seed, Index: index, Backend: "none", Variant: "transit"}
 	spec := &NetSpec{Path: "c20b"}
+	if g.Chance(0.15) {
+		// offsets: the signed text is a few hundred bytes; consecutive plans sweep the cut positions
+		spec.Resign = &DiskFault{File: "prov", Kind: g.Pick("truncate", "truncate", "truncate", "zero-block", "dup-block", "bitflip"), Off: int(index/4) % 700, Len: 1 + g.N(40), Bit: g.N(8)}
+		p.Net = spec
+		p.Variant = "transit-resigned"
+		return p.Clone()
+	}
 	if g.Chance(0.9) {
 		spec.Target = g.Pick("index", "chart", "prov")
 		tr := &Route{Pos: g.N(1 << 20)}
